@@ -198,6 +198,13 @@ __CPROVER_assigns()
 __CPROVER_ensures(__CPROVER_return_value == (long)G_pos)
 ;
 
+/* memcpy for large symbolic lengths (ASSUMED frame: the destination object; content unspecified) */
+void *memcpy_any(void *dst, const void *src, size_t n)
+__CPROVER_requires(__CPROVER_w_ok(dst, n) && __CPROVER_r_ok(src, n))
+__CPROVER_assigns(__CPROVER_object_whole(dst))
+__CPROVER_ensures(__CPROVER_return_value == dst)
+;
+
 /* zlib's crc32: an uninterpreted value (ASSUMED; signatures are outside what C18 proves) */
 unsigned long crc32(unsigned long crc, const unsigned char *buf, unsigned int len)
 __CPROVER_requires(1)
